@@ -15,7 +15,7 @@ import (
 )
 
 func init() {
-	register(&Check{ID: "C10", Level: "exploration", API: c10, APIRace: true,
+	register(&Check{ID: "C10", Level: "exploration", API: c10, APIRace: true, RaceScope: []string{"proc/redis/codec.go", "proc/redis/bufio.go", "proc/redis/resp.go"},
 		APITimeout: map[string]time.Duration{"quick": 5 * time.Minute, "thorough": 25 * time.Minute}})
 }
 
